@@ -67,15 +67,11 @@ Record rstate := mkR {
   r_entry : list fop; r_exit : list fop;
   r_stack : list nat;            (* block_stack, top = last element; we keep it reversed: head = top *)
   r_del : option nat; r_retain : bool;
-  r_roe : list (list fop);       (* resolve_on_else_or_end[Before].not_flagged *)
+  r_roe : list (nat * pend2);    (* resolve_on_else_or_end, keyed by the block id of the `if` that waits (like r_ron) *)
   r_ron : list (nat * pend2);
   r_loc : locals }.
 
 Definition top (s : list nat) : nat := hd 0 s.
-
-Definition resolve_roe (st : rstate) (w : flags) : rstate * flags :=
-  (mkR (r_entry st) (r_exit st) (r_stack st) (r_del st) (r_retain st) [] (r_ron st) (r_loc st),
-   match r_roe st with [] => w | _ => w_before (concat (r_roe st)) w end).
 
 Definition set_del d (st : rstate) := mkR (r_entry st) (r_exit st) (r_stack st) d (r_retain st) (r_roe st) (r_ron st) (r_loc st).
 Definition set_retain b (st : rstate) := mkR (r_entry st) (r_exit st) (r_stack st) (r_del st) b (r_roe st) (r_ron st) (r_loc st).
@@ -111,7 +107,8 @@ Definition flag_stage (op : fop) (orig : flags) (st : rstate) (w : flags) : rsta
     else
       let st' :=
         match op with
-        | FIf _ => set_roe (r_roe st ++ [f_bx orig]) st
+        | FIf _ =>
+            set_roe (ron_upd (top (r_stack st)) (fun p => mkPend2 (add_not (f_bx orig) (pb p)) (pa p)) (r_roe st)) st
         | FBlock _ | FLoop _ | FElse =>
             set_ron (ron_upd (top (r_stack st)) (fun p => mkPend2 (add_not (f_bx orig) (pb p)) (pa p)) (r_ron st)) st
         | _ => st
@@ -150,6 +147,14 @@ Definition resolve_pend2 (p : pend2) (w : flags) : flags :=
 (* note: resolve_bodies is only called for the modes present in the map; an absent mode adds nothing,
    and `bodies pend0 = []`, so appending the empty list is the same *)
 
+(* resolve_on_else_or_end.remove(&block_id), then resolve_bodies for every mode of the removed entry
+   (only plan_resolution_block_exit on an `if` writes this map, always under the mode Before) *)
+Definition resolve_roe (k : nat) (st : rstate) (w : flags) : rstate * flags :=
+  match ron_get k (r_roe st) with
+  | Some p => (set_roe (ron_remove k (r_roe st)) st, resolve_pend2 p w)
+  | None => (st, w)
+  end.
+
 (* one instruction *)
 Definition rstep (last : nat) (idx : nat) (op : fop) (orig : flags) (st : rstate) : rstate * flags :=
   let w := orig in
@@ -172,7 +177,8 @@ Definition rstep (last : nat) (idx : nat) (op : fop) (orig : flags) (st : rstate
       | None => flag_stage op orig st w
       end
   | FElse =>
-      let '(st, w) := resolve_roe st w in
+      (* block_stack.last().and_then(|block_id| resolve_on_else_or_end.remove(block_id)) *)
+      let '(st, w) := match r_stack st with [] => (st, w) | k :: _ => resolve_roe k st w end in
       match block_alt_case true orig st w with
       | Some r => r
       | None => flag_stage op orig st w
@@ -183,7 +189,7 @@ Definition rstep (last : nat) (idx : nat) (op : fop) (orig : flags) (st : rstate
       | block_id :: rest =>
           let st := set_stack rest st in
           let cont (st : rstate) (w : flags) :=
-            let '(st, w) := resolve_roe st w in
+            let '(st, w) := resolve_roe block_id st w in
             let '(st, w) :=
               match ron_get block_id (r_ron st) with
               | Some p => (set_ron (ron_remove block_id (r_ron st)) st, resolve_pend2 p w)
